@@ -254,11 +254,12 @@ func (lh *WorkerLoop) onNewConsensusRound(prevBlock interfaces.Block, prevBlockP
 	lh.logger.ConsensusTrace("starting a new consensus round", nil)
 
 	lh.leanHelixTerm = leanhelixterm.NewLeanHelixTerm(ctx, lh.logger, lh.config, lh.state, lh.electionTrigger, lh.onCommit, prevBlock, prevBlockProofBytes, canBeFirstLeader)
-	lh.logger.Debug("onNewConsensusRound() Calling ConsumeCacheMessages for H=%d", lh.state.Height())
-	lh.filter.ConsumeCacheMessages(lh.leanHelixTerm)
+	// report this round before consuming cached messages: they may commit this height and start the next round from within
 	if lh.onNewConsensusRoundCallback != nil {
-		lh.onNewConsensusRoundCallback(ctx, lh.state.Height(), prevBlock, canBeFirstLeader)
+		lh.onNewConsensusRoundCallback(ctx, current.Height(), prevBlock, canBeFirstLeader)
 	}
+	lh.logger.Debug("onNewConsensusRound() Calling ConsumeCacheMessages for H=%d", current.Height())
+	lh.filter.ConsumeCacheMessages(lh.leanHelixTerm)
 }
 
 func (lh *WorkerLoop) cleanupCurrentTerm() {
